@@ -123,6 +123,7 @@ def gen_case(rng, min_remaps=2, micro=0.0, defaults=False, big=False):
     case["forms"] = archlib.gen_forms(rng)
     if case["forms"]["dtype"] == "dictmix":      # mixed objective / measures precision: fixed-cell runner only
         case["forms"]["dtype"] = "dictsol"
+    archlib.sprinkle(rng, case)     # checkpoints: continue on a pickled / deep-copied archive
     return case
 
 
@@ -504,6 +505,8 @@ class Run:
                     f = f or self.check_stats(post, where) or self.compare(post, geom(self.a, case), where)
                 elif op["op"] == "retrieve":
                     f = self.retrieve(op["qs"], where)
+                elif op["op"] == "ckpt":
+                    self.a = archlib.checkpoint(self.a, op.get("how", "pickle"))
                 elif op["op"] == "bad":
                     f = self.do_bad(op, where)
                 if f is not None:
